@@ -106,7 +106,11 @@ def compare_logs(res: Result, real_log, ref, end_ns, component="Simulation") -> 
 
 
 def _j(e):
-    return [tuple(x) if isinstance(x, list) else x for x in e]
+    return [_deep(x) for x in e]
+
+
+def _deep(x):
+    return tuple(_deep(y) for y in x) if isinstance(x, (list, tuple)) else x
 
 
 def run(case: dict) -> Result:
@@ -349,7 +353,46 @@ def run_rerun(case: dict) -> Result:
     return res
 
 
+def _gen_bulk(rng: random.Random, tier: str) -> dict:
+    """Thousands of pending events (request + timeout-timer style: a third cancelled before they are due), a
+    daemon stream reaching beyond the last primary event, usually no end_time: heap sizes in the thousands."""
+    for _attempt in range(20):
+        prog = gen_program(rng, futures=False, hooks=False, max_pre=5)
+        n = rng.choice([4200, 5000, 6500, 9000])
+        base = rng.choice([0, 1000, 10**9])
+        slots = rng.choice([50, 400, 3000])
+        step = rng.choice([1, 1000, 10**6])
+        pre = []
+        for i in range(n):
+            daemon = rng.random() < 0.12
+            pre.append(
+                {
+                    "t": base + rng.randrange(slots + (slots // 2 if daemon else 0)) * step,
+                    "dt": 0,
+                    "ent": rng.randrange(prog["n_ent"]),
+                    "type": rng.choice(["T2", "T3", "T3", "T4", "T4", "T4"]),
+                    "daemon": daemon,
+                    "handle": f"h{rng.randrange(6)}" if rng.random() < 0.01 else None,
+                    "phase": "after",
+                    "cancel_pre": rng.random() < 0.35,
+                }
+            )
+        order = list(range(n))
+        if rng.random() < 0.3:
+            rng.shuffle(order)
+        prog.update(pre=pre, sched_order=order, end_ns=None if rng.random() < 0.8 else base + (slots // 2) * step)
+        prog.pop("start_ns", None)
+        try:
+            ref = run_reference(prog, max_deliveries=150000)
+        except Exception:  # noqa: BLE001
+            continue
+        if len(ref.log) <= 60000 and program_is_valid(prog):
+            return prog
+    return prog
+
+
 FAMILIES = {
+    "bulk": Family("bulk", _gen_bulk, run, case_timeout=120.0),
     "rerun": Family("rerun", _gen_rerun, run_rerun, shrink=shrink_program, case_timeout=30.0),
     "programs": Family("programs", gen, run, shrink=shrink_program, case_timeout=30.0),
     "boundary": Family("boundary", _gen_boundary, run, shrink=shrink_program, case_timeout=30.0),
@@ -357,6 +400,6 @@ FAMILIES = {
 }
 
 BUDGET = {
-    "quick": {"programs": 3000, "boundary": 600, "inject": 600, "rerun": 800},
-    "thorough": {"programs": 150000, "boundary": 30000, "inject": 30000, "rerun": 30000},
+    "quick": {"programs": 3000, "boundary": 600, "inject": 600, "rerun": 800, "bulk": 40},
+    "thorough": {"programs": 150000, "boundary": 30000, "inject": 30000, "rerun": 30000, "bulk": 1500},
 }
